@@ -924,6 +924,10 @@ SHARDS = {
 HYP_CHUNK = 2500  # examples per Hypothesis run inside one shard (bounds the memory of Hypothesis' choice tree)
 
 
+# coverage-guided stage (atheris drives these Hypothesis shards, see vf/run.py): {tier: {shard kind: (shards, executions)}}
+CG = {'thorough': {'hyp': (6, 8000)}}
+
+
 def plan(tier, seed, scale=1.0):
     b, sh_n = BOUNDS[tier], SHARDS[tier]
     specs = []
